@@ -18,6 +18,15 @@ void __sanitizer_cov_trace_pc(void) {
 }
 #define REC(slot, stmt) do { tn[slot] = 0; rec_on = slot; stmt; rec_on = -1; } while (0)
 static int same_trace(size_t *where) { size_t n = tn[0] < tn[1] ? tn[0] : tn[1]; for (size_t i = 0; i < n; i++) if (TR[0][i] != TR[1][i]) { *where = i; return 0; } *where = n; return tn[0] == tn[1]; }
+/* do the two traces differ ONLY by whole extra repetitions of the loop body that ends at the divergence point?
+ * (longer = shorter with d blocks inserted at w, and the inserted blocks repeat the d blocks before them) */
+static int extra_iterations_only(size_t w) {
+	int lo = tn[0] > tn[1] ? 0 : 1, sh = 1 - lo; if (tn[lo] == tn[sh]) return 0; size_t d = tn[lo] - tn[sh];
+	if (w < d || w + d > tn[lo]) return 0;
+	for (size_t i = w; i < tn[sh]; i++) if (TR[sh][i] != TR[lo][i + d]) return 0;
+	for (size_t i = 0; i < d; i++) if (TR[lo][w + i] != TR[lo][w - d + i]) return 0;
+	return 1;
+}
 static unsigned long long trace_events = 0;
 /* distinct-trace accounting per routine (hash of the whole trace) */
 #define NR 40
@@ -33,8 +42,8 @@ static void harness_setup(void) {
 enum { R_EP_MONTY, R_EP_LWREG, R_EP_LWNAF /* control: must vary */, R_BN_MXP_MONTY, R_BN_MXP_SLIDE /* control */, R_FP_EXP_MONTY, R_BN_REC_REG,
 	R_EP2_MONTY, R_EP2_LWREG, R_G1_SEC, R_G2_SEC, R_GT_SEC, R_EB_LODAH, R_EB_RWNAF, R_DV_COPY, R_DV_SWAP, R_DV_CMP, R_UTIL_CMP, R_FP_COPY, R_DV_CMP_NONCT /* control */, R_LAST };
 static const char *RN_[] = {"ep_mul_monty", "ep_mul_lwreg", "ep_mul_lwnaf(control)", "bn_mxp_monty", "bn_mxp_slide(control)", "fp_exp_monty", "bn_rec_reg",
-	"ep2_mul_monty", "ep2_mul_lwreg", "g1_mul_sec", "g2_mul_sec", "gt_exp_sec", "eb_mul_lodah", "eb_mul_rwnaf", "dv_copy_sec", "dv_swap_sec", "dv_cmp_sec", "util_cmp_sec", "fp_copy_sec", "dv_cmp(control)"};
-static int is_control(int r) { return r == R_EP_LWNAF || r == R_BN_MXP_SLIDE || r == R_DV_CMP_NONCT; }
+	"ep2_mul_monty", "ep2_mul_lwreg", "g1_mul_sec", "g2_mul_sec", "gt_exp_sec", "eb_mul_lodah", "eb_mul_rwnaf(control)", "dv_copy_sec", "dv_swap_sec", "dv_cmp_sec", "util_cmp_sec", "fp_copy_sec", "dv_cmp(control)"};
+static int is_control(int r) { return r == R_EP_LWNAF || r == R_BN_MXP_SLIDE || r == R_DV_CMP_NONCT || r == R_EB_RWNAF /* right-to-left w-NAF: not regular */; }
 
 static long pc_cid = -7;
 static int need_pairing(void) {
@@ -102,7 +111,14 @@ static void do_reg(vf_case *c) {
 	note_trace(rid, 1);
 	if (d1 == 2) vf_fail(NULL, "%s: result differs from the specification", RN_[rid]);
 	if (rid == R_BN_REC_REG && d0 != d1) vf_fail(NULL, "bn_rec_reg: output length depends on the secret (%llu vs %llu)", (unsigned long long)d0, (unsigned long long)d1);
-	if (!is_control(rid) && !same_trace(&w)) vf_fail(NULL, "%s: basic-block trace depends on the secret: traces of %zu and %zu blocks diverge at block %zu (pc offsets %lx vs %lx)", RN_[rid], tn[0], tn[1], w, (unsigned long)(w < tn[0] ? TR[0][w] - (uintptr_t)&harness_setup : 0), (unsigned long)(w < tn[1] ? TR[1][w] - (uintptr_t)&harness_setup : 0));
+	if (!is_control(rid) && !same_trace(&w)) { const char *kf = NULL;
+		/* L33: the GLS/SAC recoding of the BN-family G2 routines sizes its loop by the bit length of the secret sub-scalars */
+		if ((rid == R_EP2_LWREG || rid == R_G2_SEC || rid == R_GT_SEC) && extra_iterations_only(w)) kf = "L33-gls-sac-length-depends-on-subscalars";
+		/* L34: the Lopez-Dahab ladder's y-recovery has a dedicated branch for (k+1)P = O, i.e. exactly k = n-1 */
+		#if WSIZE == 64
+		if (rid == R_EB_LODAH) { mpz_t t, o; mpz_inits(t, o, NULL); bn_t bo; bn_new(bo); eb_curve_get_ord(bo); vf_bn_get(o, bo); mpz_add_ui(t, c->v[3], 1); if (!mpz_cmp(t, o)) kf = "L34-lodah-k-equals-order-minus-one"; mpz_clears(t, o, NULL); bn_free(bo); }
+#endif
+		vf_fail(kf, "%s: basic-block trace depends on the secret: traces of %zu and %zu blocks diverge at block %zu (pc offsets %lx vs %lx)", RN_[rid], tn[0], tn[1], w, (unsigned long)(w < tn[0] ? TR[0][w] - (uintptr_t)&harness_setup : 0), (unsigned long)(w < tn[1] ? TR[1][w] - (uintptr_t)&harness_setup : 0)); }
 }
 static int __attribute__((noinline)) prim_call(int rid, int slot, dig_t *a, dig_t *b, size_t n, dig_t bit) {
 	int r = 0; tn[slot] = 0; rec_on = slot;
@@ -198,7 +214,7 @@ static void enumerate(void) {
 		vf_dom_uniq(&S); mpz_set_str(kref, "3c9a1b2d4e5f60718293a4b5c6d7e8f90a1b2c3d4e5f60718293a4b5c6d7e8f9", 16); mpz_mod(kref, kref, RN);
 		int rids[] = {R_EP_MONTY, R_EP_LWREG, R_EP_LWNAF, R_BN_REC_REG, R_BN_MXP_MONTY, R_FP_EXP_MONTY, R_BN_MXP_SLIDE};
 		for (unsigned ri = 0; ri < 7; ri++) { if (ri >= 4 && ci) continue; for (int j = 0; j < S.n && !vf_expired(); j++) if (vf_mine()) { if (ri >= 4 && mpz_sizeinbase(S.v[j], 2) != mpz_sizeinbase(kref, 2)) continue; reg(rids[ri], CIDS[ci], kref, S.v[j]); } }
-		if (CIDS[ci] == BN_P256) { int pr[] = {R_EP2_MONTY, R_EP2_LWREG, R_G1_SEC, R_G2_SEC, R_GT_SEC}; for (unsigned ri = 0; ri < 5; ri++) for (int j = 0; j < S.n && !vf_expired(); j += (vf_tier ? 1 : 2)) if (vf_mine()) reg(pr[ri], BN_P256, kref, S.v[j]); }
+		if (CIDS[ci] == BN_P256) { int pr[] = {R_EP2_MONTY, R_EP2_LWREG, R_G1_SEC, R_G2_SEC, R_GT_SEC}; for (unsigned ri = 0; ri < 5; ri++) for (int j = 0; j < S.n && !vf_expired(); j += (vf_tier ? 1 : 2)) if (vf_mine()) { if (pr[ri] == R_GT_SEC && mpz_sizeinbase(S.v[j], 2) != mpz_sizeinbase(kref, 2)) continue; /* an exponent's bit length is public */ reg(pr[ri], BN_P256, kref, S.v[j]); } }
 		vf_dom_clear(&S); vf_bound_done(bn); }
 	if (vf_bound_on("w64-binary-curves")) {
 		int ebc[] = {NIST_B283, NIST_K283}; for (unsigned ci = 0; ci < 2; ci++) { int th; VF_TRY(th, eb_param_set(ebc[ci])); if (th) continue; bn_t n; bn_new(n); eb_curve_get_ord(n); vf_bn_get(RN, n);
